@@ -201,3 +201,31 @@ Proof.
   - replace (Nat.ltb 1 (S (length l + 1))) with true by (symmetry; apply Nat.ltb_lt; lia).
     eexists. split; [reflexivity|]. simpl. repeat split; auto.
 Qed.
+
+(* ---------- (Q) delivery ---------- *)
+(* (Q) delivery: in a quiescent state, a record whose write loop sits in its select (alive, not inside a blocked
+   Write, not failed) has nothing buffered and nothing in flight: everything that was ever enqueued for it HAS been
+   handed to its connection, in order, once; and when nothing was dropped for it, everything accepted for it *)
+Lemma C16_delivered_Q_l : forall cf ls s, lrun cf init ls = Some s -> quiescent cf s = true ->
+  forall i ci, nth_error (clients s) i = Some ci -> p_wr ci = WRSel ->
+  buf_of s i = [] /\ wr_pend s i = [] /\ wfails i (log s) = [] /\
+  outs i (log s) = enqs i (log s) /\
+  (dropped i (log s) = [] -> outs i (log s) = fwds i (log s)).
+Proof.
+  intros cf ls s H Q i ci Hi Hw.
+  pose proof (w_ok _ _ (ex_reach _ _ _ H) i) as W. rewrite Hi in W.
+  destruct W as (A & B & C & _).
+  assert (p_buf ci = []) as Hb.
+  { destruct (p_buf ci) as [|e rest] eqn:Eb; auto. exfalso.
+    assert (In (r_wr_take i) (rules cf s)) as Hin.
+    { apply rules_has_client. eapply nth_some_lt; eauto. unfold per_client_rules. simpl. tauto. }
+    pose proof (quiescent_none _ _ _ Q Hin) as N. unfold r_wr_take in N. rewrite Hi, Hw, Eb in N. discriminate. }
+  assert (wfails i (log s) = []) as Hf.
+  { destruct C as [C|[[C|C] _]]; auto; rewrite Hw in C; discriminate. }
+  unfold buf_of, wr_pend. rewrite Hi, Hw, Hb.
+  unfold wpend in B. rewrite Hw in B. rewrite Hf in B. simpl in B. rewrite app_nil_r in B.
+  rewrite Hb, app_nil_r in A.
+  repeat split; auto.
+  - congruence.
+  - intros D. rewrite (no_drop_fwds _ _ D). congruence.
+Qed.
